@@ -2,7 +2,7 @@ import io
 from . import ref
 
 
-def replay_history(writer, blocked, lengths, fins, readable=True, content=None, seekable=True):
+def replay_history(writer, blocked, lengths, fins, readable=True, content=None, seekable=True, many=False):
     from cardutil import mciipm
     f = io.BytesIO()
     if not readable:
@@ -27,8 +27,12 @@ def replay_history(writer, blocked, lengths, fins, readable=True, content=None, 
             [{'MTI': '1144', 'DE2': ''.join(chr(65 + (j + i) % 26) for j in range(n))} for i, n in enumerate(lengths)]
     w.__enter__()
     bound_close = w.close
-    for it in items:
-        w.write(it)
+    if many:
+        w.write_many(items[:-1])
+        w.write(items[-1])
+    else:
+        for it in items:
+            w.write(it)
     snap = None
     for k, fin in enumerate(fins):
         if not seekable:
